@@ -95,6 +95,33 @@ func buildPublish(p *mq.Publish, topic, payload []byte, props []spec.Prop) error
 	return nil
 }
 
+// PublishOrder selects the order in which Build calls the four header
+// setters of a PUBLISH (SetDuplicate, SetQoS, SetRetain, SetPacketID):
+// 0..23 = the permutations, before the other fields; 24..47 = the same
+// permutations after all other fields. 0 is the default order.
+var PublishOrder int
+
+// NPublishOrders is the number of values PublishOrder distinguishes.
+const NPublishOrders = 48
+
+var flagPerms = func() [][]int {
+	var out [][]int
+	var rec func(cur []int, used int)
+	rec = func(cur []int, used int) {
+		if len(cur) == 4 {
+			out = append(out, append([]int{}, cur...))
+			return
+		}
+		for i := 0; i < 4; i++ {
+			if used&(1<<uint(i)) == 0 {
+				rec(append(cur, i), used|1<<uint(i))
+			}
+		}
+	}
+	rec(nil, 0)
+	return out
+}()
+
 // Between, when set, is called after every setter call Build makes, with
 // the packet under construction: a caller may render or encode the
 // half-built packet there (a program may log a packet while it fills it
@@ -274,21 +301,52 @@ func Build(p *spec.Packet) (mq.Packet, error) {
 
 	case PUBLISH:
 		c := mq.NewPublish()
-		if p.Flags&8 != 0 {
-			c.SetDuplicate(true)
-			tick(c)
+		flagSetters := []func(){
+			func() {
+				if p.Flags&8 != 0 {
+					c.SetDuplicate(true)
+					tick(c)
+				}
+			},
+			func() {
+				if q := (p.Flags >> 1) & 3; q != 0 {
+					c.SetQoS(q)
+					tick(c)
+				}
+			},
+			func() {
+				if p.Flags&1 != 0 {
+					c.SetRetain(true)
+					tick(c)
+				}
+			},
+			func() {
+				if p.PacketID != 0 {
+					c.SetPacketID(p.PacketID)
+					tick(c)
+				}
+			},
 		}
-		if q := (p.Flags >> 1) & 3; q != 0 {
-			c.SetQoS(q)
-			tick(c)
+		perm := flagPerms[PublishOrder%len(flagPerms)]
+		late := PublishOrder >= len(flagPerms)
+		if !late {
+			for _, i := range perm {
+				flagSetters[i]()
+			}
 		}
-		if p.Flags&1 != 0 {
-			c.SetRetain(true)
-			tick(c)
-		}
-		if p.PacketID != 0 {
-			c.SetPacketID(p.PacketID)
-			tick(c)
+		if late {
+			if err := buildPublish(c, p.Topic, p.Payload, p.Props); err != nil {
+				return nil, err
+			}
+			for _, i := range perm {
+				flagSetters[i]()
+			}
+			for _, pr := range p.Props {
+				if pr.ID == 0x18 {
+					return nil, nc("will delay on PUBLISH")
+				}
+			}
+			return c, nil
 		}
 		if err := buildPublish(c, p.Topic, p.Payload, p.Props); err != nil {
 			return nil, err
